@@ -93,7 +93,7 @@ KANI_ASSUMPTIONS = [
 PROPS = {
     'C03': dict(
         title='Typed opcodes only ever receive operands of the kind they require',
-        verus=['core'],
+        verus=['core', 'mutv'],
         level='proof',
         technique='Verus contracts on extracted real functions: per-arm can_emit guard soundness and per-arm process_stack_ops effect against a reference pickle machine',
         claim='Unbounded proof (all stacks, all depths) that each can_emit arm implies the reference kind precondition and that '
@@ -110,10 +110,13 @@ PROPS = {
         title='Every opcode of the protocol vocabulary is reachable',
         verus=['core'], kani_quick=['u7_tables_exact', 'u9_arb_choose_index_onto', 'u9_arb_gen_bool_both'],
         level='other',
-        technique='contracts: per-arm completeness of can_emit on a witness state (Verus), candidate table == CPython vocabulary (Kani), choice function onto in fuzzer-bytes mode (Kani)',
+        technique='contracts: per-arm completeness of can_emit on a witness state, get_valid_opcodes keeps every table entry whose guard must say yes, weighted_choice returns exactly the '
+                  'alternative the entropy source drew, the FRAME decision for P >= 4 is a coin drawn from the source (Verus); candidate table == CPython vocabulary (Kani); '
+                  'choice function onto and coin two-valued in fuzzer-bytes mode (Kani)',
         claim='Decides the part contracts can decide: (i) the candidate table of protocol P is exactly the CPython vocabulary introduced up to P (nothing missing); '
               '(ii) for every opcode the real guard answers yes in a concrete witness state reached by a listed trace of unconditionally valid opcodes (no guard is '
-              'unsatisfiable or too strict for its witness); (iii) in fuzzer-bytes mode the uniform choice can select every alternative and the FRAME coin takes both values. '
+              'unsatisfiable or too strict for its witness); (iii) no such opcode is dropped between the table and the choice (get_valid_opcodes completeness, weighted_choice == candidates[draw]); '
+              '(iv) in fuzzer-bytes mode the uniform choice can select every alternative and the FRAME coin, which alone decides framing for P >= 4, takes both values. '
               'The existence of a ChaCha8 seed in a fixed range realising the choices is an existential over a PRNG and is not decided.',
         note='level "other": a satisfiability-by-witness argument, not an exploration of seeds. Witness traces are listed in contracts/witnesses.md; that each trace is accepted '
              'by the reference machine and ends in the witness state is by inspection (short concrete traces).',
@@ -181,13 +184,13 @@ _NOTE = 'Trusted: Verus/z3; the opaque cell model (variant tag immutable; lint-c
 
 PROPS.update({
     'C01': dict(
-        title='Safe-mode pickles obey the reference stack discipline', verus=['core'], level='proof',
+        title='Safe-mode pickles obey the reference stack discipline', verus=['core', 'mutv'], level='proof',
         technique='Verus contracts on extracted real functions: can_emit guard soundness, process_stack_ops simulation relation, cleanup_for_stop, generate_internal loop invariant (trace accepted by a reference pickle machine)',
         claim='Unbounded proof (every protocol, entropy stream, opcode range, flag combination, stack depth) that the opcode trace emitted by generate_internal without unsafe '
               'mutations satisfies the reference stack preconditions at every step and that STOP finds exactly one non-MARK object.',
         note=_NOTE, assumptions=_CORE_ASSUME),
     'C02': dict(
-        title='Memo discipline', verus=['core'], level='proof',
+        title='Memo discipline', verus=['core', 'mutv'], level='proof',
         technique='Verus contracts: memo emitter arms (PUT index == memo size and fresh, GET index in key set for any mutated index), guards, process_stack_ops memo arms, contiguity invariant',
         claim='Unbounded proof (any memo size, any mutator outcome for the index) that GET-family indices are defined, PUT-family indices are fresh, and no PUT executes on MARK/empty stack.',
         note=_NOTE, assumptions=_CORE_ASSUME),
@@ -207,7 +210,7 @@ PROPS.update({
                                     'a printable-ASCII line contains no inner newline (text_ok is established only through these assumed specs)',
                                     'post_process_emission: at most a type-confusion rewrite of the current emission (dyn dispatch over the registered built-in mutators is assumed)']),
     'C05': dict(
-        title='Only opcodes of the requested protocol, right header', verus=['core'], kani_quick=U7, level='proof',
+        title='Only opcodes of the requested protocol, right header', verus=['core', 'mutv'], kani_quick=U7, level='proof',
         technique='Verus contracts: candidate set within the protocol table, emitted opcode in the chosen family and protocol, collapse-phase opcodes in protocol, PROTO header clause of generate_internal',
         claim='Proof that every opcode recorded in the trace (body and collapse tail) was introduced in protocol <= P, PROTO P is the first two bytes iff P >= 2.',
         note=_NOTE + ' Table content is assumed in Verus and proved exactly equal to the CPython vocabulary by the Kani harness u7_tables_exact; the protocol-0 7-bit-ASCII clause for payload bytes is not covered yet.',
@@ -239,7 +242,7 @@ PROPS.update({
         note=_NOTE + ' Equality of two runs additionally needs determinism of the callees (C07). generate()/generate_from_arbitrary() wrappers by inspection.',
         assumptions=_CORE_ASSUME),
     'C09': dict(
-        title='Generation is total', verus=['core'], kani_quick=U8_QUICK + U9_QUICK, level='proof',
+        title='Generation is total', verus=['core', 'mutv'], kani_quick=U8_QUICK + U9_QUICK, level='proof',
         technique='Verus exec-safety obligations (overflow, index bounds, unwrap) and decreases clauses on every loop of the functions under contract, generate_internal returns Ok; Kani panic/overflow checks on mutators and entropy adapters',
         claim='Proof of panic-freedom, termination and Ok result for the functions under contract, for all inputs and in every mode: process_stack_ops, cleanup_for_stop and the '
               'emitters are verified for ANY simulated state (unsafe mutations let the simulation drift), generate_internal_u returns Ok for every configuration.',
